@@ -170,36 +170,42 @@ func (batch *Batch) Read(b []byte) (int, error) {
 	batch.mutex.Lock()
 	offset := batch.offset
 
-	_, _, _, err := batch.readMessage(
-		func(r *bufio.Reader, size int, nbytes int) (int, error) {
-			if nbytes < 0 {
-				return size, nil
-			}
-			return discardN(r, size, nbytes)
-		},
-		func(r *bufio.Reader, size int, nbytes int) (int, error) {
-			if nbytes < 0 {
-				return size, nil
-			}
-			// make sure there are enough bytes for the message value.  return
-			// errShortRead if the message is truncated.
-			if nbytes > size {
-				return size, errShortRead
-			}
-			n = nbytes // return value
-			if nbytes > cap(b) {
-				nbytes = cap(b)
-			}
-			if nbytes > len(b) {
-				b = b[:nbytes]
-			}
-			nbytes, err := io.ReadFull(r, b[:nbytes])
-			if err != nil {
-				return size - nbytes, err
-			}
-			return discardN(r, size-nbytes, n-nbytes)
-		},
-	)
+	readKey := func(r *bufio.Reader, size int, nbytes int) (int, error) {
+		if nbytes < 0 {
+			return size, nil
+		}
+		return discardN(r, size, nbytes)
+	}
+	readValue := func(r *bufio.Reader, size int, nbytes int) (int, error) {
+		if nbytes < 0 {
+			return size, nil
+		}
+		// make sure there are enough bytes for the message value.  return
+		// errShortRead if the message is truncated.
+		if nbytes > size {
+			return size, errShortRead
+		}
+		n = nbytes // return value
+		if nbytes > cap(b) {
+			nbytes = cap(b)
+		}
+		if nbytes > len(b) {
+			b = b[:nbytes]
+		}
+		nbytes, err := io.ReadFull(r, b[:nbytes])
+		if err != nil {
+			return size - nbytes, err
+		}
+		return discardN(r, size-nbytes, n-nbytes)
+	}
+	msgOffset, _, _, err := batch.readMessage(readKey, readValue)
+	// A batch may start before the requested offset: the messages that lie
+	// before it are passed over, like ReadMessage does.
+	for err == nil && batch.conn != nil && msgOffset < batch.connOffset() {
+		n = 0
+		offset = batch.offset
+		msgOffset, _, _, err = batch.readMessage(readKey, readValue)
+	}
 
 	if err == nil && n > len(b) {
 		n, err = len(b), io.ErrShortBuffer
